@@ -21,7 +21,18 @@ enum Family { FAM_AFFINE = 0, FAM_NONLINEAR, FAM_SINGULAR_START, FAM_AFFINE_1EM6
 static const char* fam_name[] = {"affine-well-conditioned", "mildly-nonlinear-known-root", "singular-jacobian-at-start", "affine-well-conditioned-scaled-1e-6", "affine-well-conditioned-scaled-1e-9", "affine-well-conditioned-scaled-1e-12"};
 // the scaled families are the affine system multiplied by a constant (same condition number, same Newton iterates); the convergence
 // threshold is scaled with them: Newton's method is invariant under such a scaling, an absolute pivot or determinant test is not
-static bool is_affine(int fam) { return fam == FAM_AFFINE || fam >= FAM_AFFINE_1EM6; }
+// families FAM_COUNT .. FAM_COUNT+47 (N >= 4 only): the equations of an affine system in any order.  The matrix is a row permutation
+// (all 24 permutations of the first four rows) of a sparse unit upper triangular matrix (two bases): regular and well conditioned, but its
+// LU decomposition needs row exchanges, several in a row for some permutations (zeros on the diagonal)
+enum { NPERMFAM = 48 };
+static bool is_permuted(int fam) { return fam >= FAM_COUNT && fam < FAM_COUNT + NPERMFAM; }
+static bool is_affine(int fam) { return fam == FAM_AFFINE || (fam >= FAM_AFFINE_1EM6 && fam < FAM_COUNT) || is_permuted(fam); }
+static void perm4(int k, int out[4]) { int pool[4] = {0, 1, 2, 3}; int n = 4; for (int i = 0; i < 4; ++i) { int f = 1; for (int j = 2; j < n; ++j) f *= j; int q = k / f; k %= f; out[i] = pool[q]; for (int j = q; j + 1 < n; ++j) pool[j] = pool[j + 1]; --n; } }
+static std::string family_name(int fam) {
+  if (!is_permuted(fam)) return fam_name[fam];
+  int pm[4]; perm4((fam - FAM_COUNT) % 24, pm);
+  return std::string("affine-rows-permuted(base=") + ((fam - FAM_COUNT) / 24 ? "I+2*superdiagonal" : "I+2*e0e1^T") + ",rows=" + std::to_string(pm[0]) + std::to_string(pm[1]) + std::to_string(pm[2]) + std::to_string(pm[3]) + ")";
+}
 static double scale_of(int fam) { return fam == FAM_AFFINE_1EM6 ? 1e-6 : fam == FAM_AFFINE_1EM9 ? 1e-9 : fam == FAM_AFFINE_1EM12 ? 1e-12 : 1.0; }
 static const char* solver_name[] = {"TinyNewtonRaphsonSolver", "TinyBroydenSolver", "TinyBroyden2Solver", "TinyPowellDogLegNewtonRaphsonSolver", "TinyPowellDogLegBroydenSolver", "TinyLevenbergMarquardtSolver"};
 
@@ -32,6 +43,16 @@ struct Runaway {};
 
 template <unsigned short N> void reference(int family, const tfel::math::tvector<N, double>& x, tfel::math::tvector<N, double>& f, tfel::math::tmatrix<N, N, double>* J) {
   if (J) for (unsigned short i = 0; i < N; ++i) for (unsigned short j = 0; j < N; ++j) (*J)(i, j) = 0;
+  if (is_permuted(family)) {
+    int pm[4]; perm4((family - FAM_COUNT) % 24, pm); const bool super = (family - FAM_COUNT) / 24 != 0;
+    for (unsigned short i = 0; i < N; ++i) {
+      const unsigned short r = (i < 4 && N >= 4) ? static_cast<unsigned short>(pm[i]) : i;   // equation i is row r of the base matrix
+      const double root_r = double(r + 1) / N;
+      f(i) = x(r) - root_r; if (J) (*J)(i, r) = 1;
+      if ((super || r == 0) && r + 1 < N) { f(i) += 2 * (x(r + 1) - double(r + 2) / N); if (J) (*J)(i, r + 1) = 2; }
+    }
+    return;
+  }
   for (unsigned short i = 0; i < N; ++i) {
     if (is_affine(family)) {
       const double c = scale_of(family);
@@ -98,6 +119,7 @@ struct Probe : public SOLVER_T<N, double, Probe<N>> {
   }
   bool solve() { return this->solveNonLinearSystem(); }
   unsigned short iterations() const { return this->iter; }
+  using SOLVER_T<N, double, Probe<N>>::zeros;
   const tfel::math::tvector<N, double>& unknowns() const { return this->zeros; }
   const tfel::math::tvector<N, double>& residual() const { return this->fzeros; }
   bool computeResidual() {
@@ -155,6 +177,23 @@ template <unsigned short N> Verdict run_plan(const Plan& p) {
       for (unsigned short i = 0; i < N; ++i) if (!std::isfinite(s.unknowns()(i))) fail("success-with-non-finite-unknowns", "returned unknowns are not finite");
     }
   }
+  // the same solver object is used again, for a fault-free resolution of the same system from the same initial guess: the iteration budget
+  // and the success criterion hold for every resolution, not only for the first one of an object
+  {
+    Plan p2{p.family, p.iterMax, 0u, FK_NONE}; Log log2;
+    s.plan = &p2; s.log = &log2;
+    for (unsigned short i = 0; i < N; ++i) s.zeros(i) = (p.family == FAM_SINGULAR_START) ? 0. : 0.05 * (i + 1);
+    bool ok2 = false; bool runaway = false;
+    try { ok2 = s.solve(); } catch (Runaway&) { runaway = true; }
+    if (runaway) fail("too-many-evaluations", "second resolution on the same object: stopped by the harness after " + std::to_string(log2.evals.size()) + " residual evaluations for iterMax=" + std::to_string(p.iterMax));
+    else {
+      if (s.iterations() > p.iterMax) fail("iter-exceeds-iterMax", "second resolution on the same object: iter=" + std::to_string(s.iterations()) + " iterMax=" + std::to_string(p.iterMax));
+      if (ok2 && log2.evals.empty()) fail("success-without-evaluation", "second resolution on the same object reported success without evaluating the residual");
+      if (ok2 && !log2.evals.empty() && memcmp(log2.evals.back().x.data(), s.unknowns().begin(), sizeof(double) * N) != 0) fail("success-at-other-point", "second resolution: the returned unknowns are not the point of the last residual evaluation");
+      if (SOLVER_INDEX == 0 && is_affine(p.family) && p.iterMax >= 3 && !ok2) fail("no-convergence-after-faults-stopped", "second, fault-free resolution on the same Newton solver object did not converge on an affine system (iterMax=" + std::to_string(p.iterMax) + ", " + std::to_string(log2.evals.size()) + " evaluations)");
+    }
+    s.plan = &p; s.log = &log;
+  }
 #if SOLVER_INDEX == 0
   // bounded liveness (Newton, affine, rejected evaluations only): once the faults stop, one clean evaluation, one correction
   // and one more evaluation are enough; demanded only when that many iterations are left after the last fault
@@ -171,7 +210,7 @@ static Verdict dispatch(int n, const Plan& p) {
 }
 
 static void print(const char* cls, int n, const Plan& p, const Verdict& v) {
-  printf("{\"cls\":\"%s\",\"case\":[%d,%d,%d,%d,%u,%d],\"solver\":\"%s\",\"N\":%d,\"family\":\"%s\",\"iterMax\":%d,\"faulty_evaluations\":\"", cls, SOLVER_INDEX, n, p.family, p.iterMax, p.fault_mask, p.kind, solver_name[SOLVER_INDEX], n, fam_name[p.family], p.iterMax);
+  printf("{\"cls\":\"%s\",\"case\":[%d,%d,%d,%d,%u,%d],\"solver\":\"%s\",\"N\":%d,\"family\":\"%s\",\"iterMax\":%d,\"faulty_evaluations\":\"", cls, SOLVER_INDEX, n, p.family, p.iterMax, p.fault_mask, p.kind, solver_name[SOLVER_INDEX], n, family_name(p.family).c_str(), p.iterMax);
   bool first = true; for (int k = 0; k < 32; ++k) if ((p.fault_mask >> k) & 1u) { printf("%s%d", first ? "" : ",", k); first = false; }
   printf("\",\"fault\":\"%s\",\"converged\":%d,\"iter\":%d,\"evaluations\":%zu,\"detail\":\"%s\"}\n", fk_name[p.kind], int(v.converged), v.iter, v.evals, v.detail.c_str());
 }
@@ -187,10 +226,12 @@ int main(int argc, char** argv) {
   static const int iters_quick[] = {0, 1, 2, 4, 7}, iters_thorough[] = {0, 1, 2, 3, 4, 6, 9, 12};
   const int* iters = tier ? iters_thorough : iters_quick; const int niters = tier ? 8 : 5;
   long cases = 0, fault_reached = 0, converged = 0, violations = 0, samples = 0; long by_kind[FK_COUNT] = {0};
-  for (int n : sizes) for (int fam = 0; fam < FAM_COUNT; ++fam) for (int ii = 0; ii < niters; ++ii) {
+  for (int n : sizes) for (int fam = 0; fam < FAM_COUNT + NPERMFAM; ++fam) for (int ii = 0; ii < niters; ++ii) {
+    if (is_permuted(fam) && n < 4) continue;
     const int im = iters[ii], npos = std::min(im + 2, tier ? 14 : 9);
     for (unsigned mask = 0; mask < (1u << npos); ++mask) {
-      if (__builtin_popcount(mask) > (fam >= FAM_AFFINE_1EM6 ? 1 : 3)) continue;   // the scaled copies of the affine family: at most one fault
+      if (__builtin_popcount(mask) > (fam >= FAM_AFFINE_1EM6 ? 1 : 3)) continue;
+      if (is_permuted(fam) && mask > 2) continue;   // the permuted families: no fault, or one fault at the first or second evaluation   // the scaled copies of the affine family: at most one fault
       for (int kind = (mask ? 1 : 0); kind < (mask ? int(FK_COUNT) : 1); ++kind) {
         Plan p{fam, im, mask, kind};
         Verdict v = dispatch(n, p);
